@@ -36,6 +36,7 @@ type Event struct {
 	Err      string `json:"err,omitempty"`
 	Injected bool   `json:"injected,omitempty"`
 	Index    int    `json:"index,omitempty"` // position among the counted boundary calls since Arm (1-based), call events only
+	Tag      string `json:"tag,omitempty"`   // operation label from the context's tracing id, where the shim has a context
 }
 
 // Name returns layer.op.
@@ -47,6 +48,9 @@ type FaultPlan struct {
 	Index int    `json:"index"` // fire at the Index-th counted boundary call since Arm (1-based)
 	// optional match: only calls whose layer.op equals Match are counted (empty = all gated calls)
 	Match   string        `json:"match,omitempty"`
+	// optional: calls whose layer.op is listed are never counted (steps that are compensations of the operations
+	// of the round: the fault model is a single failure, compensating steps succeed)
+	Exclude []string      `json:"exclude,omitempty"`
 	Delay   time.Duration `json:"delay,omitempty"`
 	Inst    string        `json:"inst,omitempty"` // crash: which instance dies; fail/delay: only this instance's calls count ("" = all)
 	fired   int32
@@ -74,6 +78,8 @@ type Boundary struct {
 	// OnCall, when set, runs before every gated call (after fault decision, before the real call) in the
 	// calling goroutine WITHOUT the gate held; monitors use Quiesce inside it. It must not make boundary calls.
 	OnCall func(ev Event)
+	// OnDone, when set, runs after a gated call (or a Point) returned, in the calling goroutine.
+	OnDone func(ev Event)
 
 	inflight int64
 	// delays: PRNG-free deterministic jitter: every n-th gated call sleeps d (0 = off)
@@ -232,6 +238,13 @@ func (b *Boundary) Call(inst, layer, op, arg string) (done func(err error), inje
 	if b.armed {
 		p := b.plan
 		count := p == nil || ((p.Match == "" || p.Match == layer+"."+op) && (p.Kind == "crash" || p.Inst == "" || p.Inst == inst))
+		if count && p != nil {
+			for _, x := range p.Exclude {
+				if x == layer+"."+op {
+					count = false
+				}
+			}
+		}
 		if count {
 			b.counted++
 			ev.Index = b.counted
@@ -288,5 +301,51 @@ func (b *Boundary) Call(inst, layer, op, arg string) (done func(err error), inje
 		b.record(r)
 		atomic.AddInt64(&b.inflight, -1)
 		b.gate.RUnlock()
+		if hook := b.OnDone; hook != nil {
+			hook(r)
+		}
 	}, nil
+}
+
+// TagOf returns the whole tracing id of a context ("A/op12"), "" if there is none.
+func TagOf(ctx context.Context) string {
+	if ctx == nil {
+		return ""
+	}
+	if v, ok := ctx.Value(coretypes.TracingID).(string); ok {
+		return v
+	}
+	return ""
+}
+
+// Point announces an un-gated step nested inside a gated call (a meta.KV call inside a store operation): it is
+// recorded and offered to the OnCall / OnDone hooks (the interleaving scheduler), but it neither takes the gate
+// nor counts for fault plans. The returned func must be called when the step returned.
+func (b *Boundary) Point(inst, layer, op, arg, tag string) (done func(err error)) {
+	if b == nil {
+		return func(error) {}
+	}
+	b.mu.Lock()
+	if b.frozen[inst] {
+		b.mu.Unlock()
+		b.park()
+	}
+	b.callID++
+	id := b.callID
+	b.mu.Unlock()
+	ev := Event{CallID: id, Inst: inst, G: goid(), Layer: layer, Op: op, Arg: arg, Tag: tag}
+	if hook := b.OnCall; hook != nil {
+		hook(ev)
+	}
+	b.record(ev)
+	return func(err error) {
+		r := Event{CallID: id, Inst: inst, G: ev.G, Layer: layer, Op: op, Arg: arg, Ret: true, Tag: tag}
+		if err != nil {
+			r.Err = err.Error()
+		}
+		b.record(r)
+		if hook := b.OnDone; hook != nil {
+			hook(r)
+		}
+	}
 }
